@@ -109,7 +109,7 @@ class Model:
         return now
 
     def scope(self, actor, op, enter):
-        sub = Model()
+        sub = self.__class__()
         sub.spawned = [[]]
         ends = sub.spawned[0]
         for child in op.get("children", ()):
